@@ -147,6 +147,10 @@ type World struct {
 	// GrantCap >= 0: the broker grants at most this QoS in SUBACK (MQTT 3.8.4 allows a lower QoS than requested);
 	// its subscription table still records what the client asked for, which is what the observers compare
 	GrantCap int
+	// GrantCode >= 0: every SUBACK return code is this byte (0x80 = refused; 3, 0x55, ... = bytes no broker should send)
+	GrantCode int
+	// MaxPayloadLen is set on every BaseClient the world dials (the option of the same name)
+	MaxPayloadLen int
 	// PromptAcks: Write returns only after the client's reader has consumed the broker's answer to the packet
 	// (a very fast broker / a Write that returns late): the acknowledgement is dispatched before the caller goes on
 	PromptAcks bool
@@ -177,7 +181,7 @@ func NewWorld(plan Plan) *World {
 	return &World{
 		Rec: NewRecorder(), Plan: plan, typeCount: map[string]int{}, gates: map[string]*Gate{},
 		subs: map[string]int{}, inflight2: map[int]bool{}, stored: map[int]int{}, InboundTopic: "in", nextInID: 100,
-		GrantCap: -1,
+		GrantCap: -1, GrantCode: -1,
 	}
 }
 
@@ -363,7 +367,7 @@ func (w *World) Dial(ctx context.Context) (*mqtt.BaseClient, error) {
 		return nil, ErrDial
 	}
 	t := newTransport(w, len(w.conns)+1)
-	cli := &mqtt.BaseClient{Transport: t}
+	cli := &mqtt.BaseClient{Transport: t, MaxPayloadLen: w.MaxPayloadLen}
 	t.Client = cli
 	g := t.G
 	cli.ConnState = func(s mqtt.ConnState, err error) {
@@ -473,7 +477,7 @@ func (w *World) clientPacket(t *Transport, p *Pkt) error {
 	defer w.mu.Unlock()
 	ev := Event{"e": "Write", "g": t.G, "k": k, "p": name, "id": p.ID, "req": req, "bad": p.Bad,
 		"tag": 0, "qos": 0, "dup": false, "retain": false, "topic": "", "fs": []string{}, "qs": []int{}, "len": len(p.Raw),
-		"deliv": []int{}, "resp": "", "sp": false, "connack": "", "clean": false}
+		"deliv": []int{}, "resp": "", "sp": false, "connack": "", "clean": false, "plen": 0}
 	ev["cid"] = ""
 	ev["cflags"] = 0
 	ev["keepalive"] = 0
@@ -490,6 +494,7 @@ func (w *World) clientPacket(t *Transport, p *Pkt) error {
 		ev["dup"] = p.Dup
 		ev["retain"] = p.Retain
 		ev["topic"] = p.Topic
+		ev["plen"] = len(p.Payload)
 	case 0x80:
 		ev["fs"] = p.Filters
 		ev["qs"] = p.QoSs
@@ -705,6 +710,9 @@ func (w *World) process(t *Transport, p *Pkt, ev Event) ([]byte, []int) {
 			codes[i] = byte(p.QoSs[i])
 			if w.GrantCap >= 0 && p.QoSs[i] > w.GrantCap {
 				codes[i] = byte(w.GrantCap)
+			}
+			if w.GrantCode >= 0 {
+				codes[i] = byte(w.GrantCode)
 			}
 		}
 		return SubAck(p.ID, codes), deliv
